@@ -286,6 +286,12 @@ class OpsMixin:
         from .extract import _walk_body
 
         node = _walk_body(tree.body, name)
+        if isinstance(node, ast.FunctionDef) and relpath.endswith("passlib/exc.py"):
+            # exception factory (``def XError(...): return SomeError(...)``): its class, not its body
+            try:
+                return (exc_class(name),)
+            except Unsupported:
+                pass
         if isinstance(node, ast.FunctionDef):
             target = f"{relpath}::{name}"
             if target in self.registry and target != self.c.target and target not in self.c.inline and name not in self.c.inline:
@@ -1023,6 +1029,11 @@ class OpsMixin:
             o = o.parent
         if attr == "__name__" and obj.is_class:
             return obj.name
+        if attr == "__dict__":
+            d = SDict()
+            d.items = obj.fields  # shared: mutations through __dict__ reach the object
+            d.owner = obj
+            return d
         if attr == "__class__":
             return self.type_of_obj(obj)
         if cref is None:
